@@ -24,6 +24,9 @@ def run(ctx):
         return
     p_C19.refdeps_rule(ctx, c, fsu, rid="C25.refdeps")
     p_C19.accessgroups_rule(ctx, c, rid="C25.accessgroups")
+    # on the Hydro side the access groups come from AccessCounter::next_group: a `&mut` access must be alone in its group
+    import p_C41
+    p_C41.access_isolation_rule(ctx, rid="C25.accessiso")
     R_E = ctx.rule("C25.enemies", "access-group pairs and reference (producer, borrower) pairs are handed to the merger as no-merge pairs", floor=1)
     p_C18.enemies_rule(ctx, c, fsu, R_E)
     # the access-group pairs computed by find_access_group_ordering reach find_subgraph_unionfind (caller wiring)
